@@ -118,7 +118,7 @@ def history(space, n: int, rng: random.Random, extreme: bool = False, pair: bool
     vals = [rng.choice([0.5, 1.0, 1.0, 2.5, 0.25, 3.75]) * rng.choice([1, 1, 2]) for _ in range(n)]      # ties
     if extreme and n:
         for _ in range(max(1, n // 3)):
-            vals[rng.randrange(n)] = rng.choice([1e39, 1e308, -1e39, 3.5e38, 1e-300, float("inf")])
+            vals[rng.randrange(n)] = rng.choice([1e39, 1e308, -1e39, 3.5e38, 1e-300] + ([] if extreme == "finite" else [float("inf")]))
         if pair and n >= 2 and rng.random() < 0.35:
             # an infinite loss next to the largest finite double of the same sign: they are different ranks
             i, j = sorted(rng.sample(range(n), 2))
@@ -144,7 +144,7 @@ def run_calls(name: str, bounds, prec, rem, bs: int, seed: int, ncalls: int, rng
         n0 = max(bs, 3) + rng.randint(0, 4)
         typed = rng.choice([None, None, "int", "f32"]) if name in ("BestBatchSampler", "ParticleSwarmSampler", "XGBoostSampler") else None
         typed = force_typed or typed
-        pts, losses = history(space, n0, rng, extreme and name not in ("GaussianProcessSampler", "RandomForestSampler", "CORSSampler"),
+        pts, losses = history(space, n0, rng, extreme if name not in ("GaussianProcessSampler", "RandomForestSampler", "CORSSampler") else False,
                               pair=name == "BestBatchSampler", typed=typed)
         if extreme and name in ("GaussianProcessSampler", "RandomForestSampler", "CORSSampler"):
             # finite extremes, and now and then an infinite one (these samplers may refuse it: then the history must be intact)
@@ -180,7 +180,10 @@ def run_calls(name: str, bounds, prec, rem, bs: int, seed: int, ncalls: int, rng
                 same = before == sha(pts, losses) and np.array_equal(keep_p, pts) and np.array_equal(keep_l, losses, equal_nan=True)
                 events.append({"e": "sample-raised", "cls": name, "what": f"{type(e).__name__}: {e}"[:160], "call": c, "kw": _kw(kw),
                                "bounds": bounds, "prec": prec, "bs": bs, "seed": seed, "extreme": extreme, "histsame": bool(same),
-                               "ordinary": bool(np.all(np.isfinite(keep_l)) and np.all(np.abs(keep_l) <= 1e30)), "typed": typed})
+                               # ordinary = a history the sampler has to cope with: finite losses of ordinary size - for XGBoost
+                               # finite losses of any size (it clips them to the float32 range itself)
+                               "ordinary": bool(np.all(np.isfinite(keep_l)) and (name == "XGBoostSampler" or np.all(np.abs(keep_l) <= 1e30))),
+                               "typed": typed})
                 break
             out = np.asarray(out)
             same = before == sha(pts, losses) and np.array_equal(keep_p, pts) and np.array_equal(keep_l, losses, equal_nan=True)
